@@ -25,10 +25,16 @@ func (p *processor) ValidateObservation(
 		return fmt.Errorf("failed to get supported chains: %w", err)
 	}
 
-	for chain := range obs.FChain {
-		if !observerSupportedChains.Contains(chain) {
-			return fmt.Errorf("chain %d is not supported by observer", chain)
-		}
+	// FChain is home chain data that every oracle observes whatever chains it reads, so it is not role-checked.
+	// Feed token prices are read from the price feed chain and fee quoter updates from the destination chain.
+	if len(obs.FeedTokenPrices) > 0 && !observerSupportedChains.Contains(p.offChainCfg.PriceFeedChainSelector) {
+		return fmt.Errorf("feed chain %d is not supported by observer, but feed token prices were observed",
+			p.offChainCfg.PriceFeedChainSelector)
+	}
+
+	if len(obs.FeeQuoterTokenUpdates) > 0 && !observerSupportedChains.Contains(p.destChain) {
+		return fmt.Errorf("dest chain %d is not supported by observer, but fee quoter token updates were observed",
+			p.destChain)
 	}
 
 	if err := validateObservedTokenPrices(obs.FeedTokenPrices); err != nil {
